@@ -387,8 +387,8 @@ def sample(case):
             c[key] = c[key][:3] + ['... %d more' % (len(c[key]) - 3)]
     return c
 
-THEOREM_FILES = ['P_C05_gen']
-THEOREM_NEEDS = {'P_C05_gen': ['Equiv_bits']}
+THEOREM_FILES = ['P_C05', 'P_C05_gen']
+THEOREM_NEEDS = {'P_C05_gen': ['Equiv_bits', 'Equiv_binom']}
 RULE = ('exhaustive over (norb, nele) tables up to the tier bound, every (i,j); cross-sector maps for every '
         'dn; operator-string maps for all index lists of length <= 2 plus random ones up to 4; 1/2-electron '
         'sectors at norb in {31..33,62..64}; bit helpers on boundary and random 64-bit values. '
